@@ -118,6 +118,12 @@ fn skip_cases() -> Vec<ProbeCase> {
             }
         }
     }
+    // skip together with unwrap-block on an element that could be unwrapped
+    for attrs in ["name='a' skip unwrap-block", "name='a' unwrap-block skip", "skip unwrap-block name='a'", "unwrap-block name='a'\nskip"] {
+        let src = format!("A\n<rm {attrs}>\nif (x) {{\n  X\n}}\n</rm>\nB\n");
+        v.push(ProbeCase { expect_out: src.clone(), src, cfg: cfg.clone(), why: "skip together with unwrap-block: never unwrapped".into() });
+    }
+    v.push(ProbeCase { src: "A\n<rm name='a' unwrap-block>\nif (x) {\n  X\n}\n</rm>\nB\n".into(), cfg: cfg.clone(), expect_out: "A\nX\nB\n".into(), why: "control: unwrap-block without skip is unwrapped".into() });
     // skip protects only the element itself, not a ready child
     v.push(ProbeCase { src: "A<rm name='a' skip>B<rm name='a'>X</rm>C</rm>D".into(), cfg: cfg.clone(), expect_out: "A<rm name='a' skip>BC</rm>D".into(), why: "skip on the parent does not protect a ready child".into() });
     v.push(ProbeCase { src: "A<rm name='a'>B<rm name='a' skip>X</rm>C</rm>D".into(), cfg: cfg.clone(), expect_out: "AD".into(), why: "a skip child inside a ready parent goes with the parent".into() });
